@@ -10,8 +10,9 @@ stream consumed by `Model/Split.lean`:
 * `printSlice`, `printMap` – the texts the flag helpers print;
 * `sliceText`, `setText`, `mapText`, `multiMapText` – the parsers from text to value.
 
-Domain: every character of the text is ASCII (< 0x80).  An escape inside a quoted string that
-denotes a value ≥ 0x80 makes the unquoted string non-ASCII: reported `none` (outside the model).
+Domain: every character of the TEXT is ASCII (< 0x80).  The VALUE of a quoted string is a byte string (a `Char`
+below 256 per byte): `\xNN` and octal escapes denote one byte each, whatever its value; a `\u` / `\U` escape that
+denotes a rune ≥ 0x80 would need UTF-8 encoding: reported `none` (outside the model).
 
 The scanner is a per-character state machine (structural recursion, no fuel); the token loop
 carries fuel (`length + 1` always suffices: every token consumes a character).
@@ -120,8 +121,12 @@ def Unq.cons (c : Option Char) : Unq → Unq
 /-- utf8.ValidRune -/
 def validRune (v : Nat) : Bool := v < 0xD800 || (0xDFFF < v && v ≤ 0x10FFFF)
 
-/-- the character denoted by a numeric escape of value `v` (`none`: not ASCII) -/
+/-- the character denoted by a `\u` / `\U` escape of value `v` (`none`: a rune that is not ASCII - its UTF-8 encoding
+is outside the model) -/
 def numChar (v : Nat) : Option Char := if v < 128 then some (Char.ofNat v) else none
+
+/-- the BYTE denoted by a `\x` / octal escape (strings are bytes: a `Char` below 256 stands for one byte) -/
+def byteChar (v : Nat) : Option Char := some (Char.ofNat v)
 
 inductive UnqSt where
   | normal
@@ -154,8 +159,8 @@ def unqStep (q : Char) : UnqSt → Char → UnqStep
     if digitOK base c then
       let acc' := acc * base + (hexValS c).getD 0
       if k ≤ 1 then
-        (if kind == 'x' then .next .normal (some (numChar acc'))
-         else if kind == 'o' then (if acc' > 255 then .err else .next .normal (some (numChar acc')))
+        (if kind == 'x' then .next .normal (some (byteChar acc'))
+         else if kind == 'o' then (if acc' > 255 then .err else .next .normal (some (byteChar acc')))
          else (if validRune acc' then .next .normal (some (numChar acc')) else .err))
       else .next (.dig kind base (k - 1) acc') none
     else .err
